@@ -103,6 +103,11 @@ func main() {
 		fmt.Fprintln(os.Stderr, "govc: load failed:", err)
 		os.Exit(2)
 	}
+	vd := os.Getenv("GOVC_VERIF")
+	if vd == "" {
+		vd = "/verif"
+	}
+	eng.known = loadKnown(vd + "/known_findings.txt")
 	fmt.Fprintf(os.Stderr, "loaded in %.1fs\n", time.Since(t0).Seconds())
 	switch os.Args[1] {
 	case "list":
